@@ -852,6 +852,7 @@ var vestingScenario = ledger.Scenario{
 		p.Steps = mix(r.Child("mix"), p.Steps, genVesting(r.Child("vesting"), p, tier))
 	},
 	Setup: func(w *ledger.World, r *ledger.Runner) []ledger.Observer {
+		setupRaw(w, r)
 		setupVesting(w, r)
 		return []ledger.Observer{vestingOracle{}}
 	},
